@@ -29,6 +29,7 @@ import (
 
 const (
 	defaultCleanerInterval = time.Second * 10
+	minSize                = 1024
 )
 
 type Key interface {
@@ -55,7 +56,9 @@ type Opts struct {
 }
 
 func (opts *Opts) init() {
-	utils.SetDefaultNum(&opts.Size, 1024)
+	if opts.Size < minSize {
+		opts.Size = minSize
+	}
 	utils.SetDefaultNum(&opts.CleanerInterval, defaultCleanerInterval)
 }
 
